@@ -190,8 +190,9 @@ theorem slowLoop_append (cfg : Config) (m : MatcherI) (σ : Script) (buf : Bytes
 
 theorem slowInv_init (cfg : Config) (sl : List SLine) (b : Bool) :
     SlowInv cfg sl 0 0 { Core.new cfg b with events := [Event.begin] } := by
-  refine ⟨⟨by simp [Core.new, off_zero], by simp [Core.new], fun h => by omega, fun _ => by simp [Core.new, off_zero],
-    ?_, rfl, rfl, by simp⟩, Nat.le_refl _, fun j h1 h2 => by omega, ?_, fun h => by omega, fun _ => rfl, ?_⟩
+  refine ⟨⟨by simp [Core.new, off_zero], by simp [Core.new], fun h => by omega,
+    ⟨0, Nat.le_refl _, fun _ => by simp [Core.new, off_zero], ?_⟩, rfl, rfl, by simp⟩,
+    Nat.le_refl _, fun j h1 h2 => by omega, ?_, fun h => by omega, fun _ => rfl, ?_⟩
   · simp [Core.new, lineNo]
   · exact aclOK_init _ _
   · simp [Core.new, hasSel]
